@@ -25,7 +25,7 @@ def rand_flags(rng, p_each):
     return m
 
 
-def gen_recipe(rng, big_lengths=False):
+def gen_recipe(rng, big_lengths=False, long_ok=True):
     style = rng.random()
     if style < 0.15:
         # the default recipe of the package, perturbed
@@ -48,7 +48,7 @@ def gen_recipe(rng, big_lengths=False):
         length = rng.choice([1, 1, 2, 2, 3, 3, 4, 5, 6, 8, 10, 12, 16, 20])
         if rng.random() < 0.06:
             length = rng.choice([0, -1, -7])
-        elif rng.random() < 0.04:
+        elif long_ok and rng.random() < 0.04:
             # long passwords: hundreds and thousands of characters (token counts across 8- and 12-bit boundaries)
             length = rng.choice([70, 128, 255, 256, 257, 1000])
             if length >= 1000:
